@@ -92,13 +92,13 @@ class RefTable(object):
       out.append(e)
     return out
 
-  def _add(self, now, fm):
+  def _add(self, now, fm, skip_overlap=False):
     if fm["flags"] & W.OFPFF_EMERG:
       if fm["idle"] != 0 or fm["hard"] != 0:
         return [{"kind": "error", "xid": fm["xid"], "etype": W.OFPET_FLOW_MOD_FAILED,
                  "codes": {W.OFPFMFC_BAD_EMERG_TIMEOUT}, "optional": False}]
       return [{"kind": "error", "xid": fm["xid"], "etype": W.OFPET_FLOW_MOD_FAILED, "codes": None, "optional": True}]
-    if fm["flags"] & W.OFPFF_CHECK_OVERLAP:
+    if (fm["flags"] & W.OFPFF_CHECK_OVERLAP) and not skip_overlap:
       for e in self.entries:
         if e.priority == fm["priority"] and M.overlaps(e.match, fm["match"]):
           if e.canon == M.canon(fm["match"]):
@@ -118,14 +118,16 @@ class RefTable(object):
     self.entries.append(new)
     return []
 
-  def flow_mod(self, now, fm):
+  def flow_mod(self, now, fm, skip_overlap=False):
+    """skip_overlap: apply the command as if the overlap check had passed (used by a harness that has
+    recorded a switch's failure to refuse and wants to keep following it)."""
     cmd = fm["command"]
     if cmd == W.OFPFC_ADD:
-      return self._add(now, fm)
+      return self._add(now, fm, skip_overlap)
     if cmd in (W.OFPFC_MODIFY, W.OFPFC_MODIFY_STRICT):
       hit = self._select(fm, cmd == W.OFPFC_MODIFY_STRICT, False)
       if not hit:
-        return self._add(now, fm)
+        return self._add(now, fm, skip_overlap)
       for e in hit:
         e.actions = bytes(fm["actions"])
         e.cookies = e.cookies | {fm["cookie"]}
